@@ -1,4 +1,170 @@
-//! Report rendering observations (C11-C13): filled in below.
+//! Report rendering observations (C11-C13): the real `generate_*_report` on random findings maps.
 use super::Ctx;
+use solstat::analyzer::optimizations::Optimization;
+use solstat::analyzer::qa::QualityAssurance;
+use solstat::analyzer::vulnerabilities::Vulnerability;
+use solstat::report::optimization_report::generate_optimization_report;
+use solstat::report::qa_report::generate_qa_report;
+use solstat::report::vulnerability_report::generate_vulnerability_report;
+use solstat_verif_harness::hex;
+use solstat_verif_harness::real;
 use solstat_verif_harness::rng::Rng;
-pub fn render_requests(_ctx: &mut Ctx, _rng: &mut Rng) {}
+use std::collections::{BTreeSet, HashMap};
+use std::panic::{catch_unwind, AssertUnwindSafe};
+
+const FILE_NAMES: [&str; 14] = [
+    "A.sol", "b.sol", "Token.sol", "a b.sol", "a:b.sol", "dir-x.sol", "- x.sol", "\u{e9}t\u{e9}.sol", "x.t.solver.sol", "Z.sol", "a.sol", "### Lines.sol", "1:2:3.sol", ".sol",
+];
+
+pub type Entries = Vec<(String, Vec<(String, BTreeSet<i32>)>)>;
+
+fn random_files(rng: &mut Rng, allow_empty: bool) -> Vec<(String, BTreeSet<i32>)> {
+    let n = if allow_empty && rng.chance(1, 10) { 0 } else { 1 + rng.below(6) };
+    let mut v = vec![];
+    for _ in 0..n {
+        let name = FILE_NAMES[rng.below(FILE_NAMES.len())].to_string();
+        let k = 1 + rng.below(4);
+        let mut ls = BTreeSet::new();
+        for _ in 0..k {
+            ls.insert(match rng.below(6) {
+                0 => 0,
+                1 => 1,
+                2 => 2147483647,
+                _ => rng.below(400) as i32,
+            });
+        }
+        v.push((name, ls));
+    }
+    v
+}
+
+fn enc(entries: &Entries) -> String {
+    entries
+        .iter()
+        .map(|(p, fs)| {
+            format!(
+                "{}={}",
+                p,
+                fs.iter()
+                    .map(|(f, ls)| format!("{}:{}", hex(f.as_bytes()), ls.iter().map(|l| l.to_string()).collect::<Vec<_>>().join(";")))
+                    .collect::<Vec<_>>()
+                    .join("|")
+            )
+        })
+        .collect::<Vec<_>>()
+        .join(",")
+}
+
+fn render_opt(entries: &Entries) -> String {
+    let mut m: HashMap<Optimization, Vec<(String, BTreeSet<i32>)>> = HashMap::new();
+    for (p, fs) in entries {
+        m.insert(real::optimizations().into_iter().find(|x| x.0 == p).unwrap().1, fs.clone());
+    }
+    catch_unwind(AssertUnwindSafe(move || generate_optimization_report(m))).map(|s| hex(s.as_bytes())).unwrap_or_else(|_| "PANIC".into())
+}
+fn render_vuln(entries: &Entries) -> String {
+    let mut m: HashMap<Vulnerability, Vec<(String, BTreeSet<i32>)>> = HashMap::new();
+    for (p, fs) in entries {
+        m.insert(real::vulnerabilities().into_iter().find(|x| x.0 == p).unwrap().1, fs.clone());
+    }
+    catch_unwind(AssertUnwindSafe(move || generate_vulnerability_report(m))).map(|s| hex(s.as_bytes())).unwrap_or_else(|_| "PANIC".into())
+}
+fn render_qa(entries: &Entries) -> String {
+    let mut m: HashMap<QualityAssurance, Vec<(String, BTreeSet<i32>)>> = HashMap::new();
+    for (p, fs) in entries {
+        m.insert(real::qas().into_iter().find(|x| x.0 == p).unwrap().1, fs.clone());
+    }
+    catch_unwind(AssertUnwindSafe(move || generate_qa_report(m))).map(|s| hex(s.as_bytes())).unwrap_or_else(|_| "PANIC".into())
+}
+
+fn render(cat: &str, entries: &Entries) -> String {
+    match cat {
+        "opt" => render_opt(entries),
+        "vuln" => render_vuln(entries),
+        _ => render_qa(entries),
+    }
+}
+
+fn random_entries(rng: &mut Rng, all: &[&'static str], allow_empty: bool) -> Entries {
+    let mut sel: Vec<&str> = all.iter().copied().filter(|_| rng.chance(1, 2)).collect();
+    rng.shuffle(&mut sel);
+    sel.into_iter().map(|p| (p.to_string(), random_files(rng, allow_empty))).collect()
+}
+
+pub fn render_requests(ctx: &mut Ctx, rng: &mut Rng) {
+    let n = if ctx.thorough { 3000 } else { 300 };
+    let opts: Vec<&'static str> = real::optimizations().into_iter().map(|x| x.0).collect();
+    let vulns: Vec<&'static str> = real::vulnerabilities().into_iter().map(|x| x.0).collect();
+    let qas: Vec<&'static str> = real::qas().into_iter().map(|x| x.0).collect();
+    let mut order_dependent = 0u64;
+    let mut emit = |ctx: &mut Ctx, rng: &mut Rng, cat: &str, entries: Entries| {
+        let imp = render(cat, &entries);
+        // same findings, other insertion order and other file order: the report must not change (C13)
+        let mut e2 = entries.clone();
+        rng.shuffle(&mut e2);
+        for (_, fs) in e2.iter_mut() {
+            rng.shuffle(fs);
+        }
+        let imp2 = render(cat, &e2);
+        if imp2 != imp {
+            order_dependent += 1;
+        }
+        ctx.line(&["RENDER", cat, &enc(&entries), &imp, if imp2 == imp { "same" } else { "differs" }]);
+    };
+    // all 16 subsets of the vulnerability patterns x multiplicities
+    for mask in 0..16u32 {
+        for rep in 0..(if ctx.thorough { 12 } else { 4 }) {
+            let mut entries: Entries = vec![];
+            for (i, v) in vulns.iter().enumerate() {
+                if mask & (1 << i) != 0 {
+                    entries.push((v.to_string(), random_files(rng, rep == 3)));
+                }
+            }
+            rng.shuffle(&mut entries);
+            emit(ctx, rng, "vuln", entries);
+        }
+    }
+    for k in 0..n {
+        let (cat, all) = match k % 3 {
+            0 => ("opt", &opts),
+            1 => ("vuln", &vulns),
+            _ => ("qa", &qas),
+        };
+        let entries = random_entries(rng, all, k % 7 == 0);
+        emit(ctx, rng, cat, entries);
+    }
+    ctx.count("order_dependent_renderings", order_dependent);
+    // the whole report through generate_report (writes solstat_report.md into the current directory)
+    let scratch = std::env::temp_dir().join(format!("solstat-verif-report-{}-{}", std::process::id(), ctx.seed));
+    let _ = std::fs::remove_dir_all(&scratch);
+    std::fs::create_dir_all(&scratch).unwrap();
+    let old = std::env::current_dir().unwrap();
+    std::env::set_current_dir(&scratch).unwrap();
+    let nfull = if ctx.thorough { 400 } else { 60 };
+    for k in 0..nfull {
+        let v = if k % 4 == 0 { vec![] } else { random_entries(rng, &vulns, false) };
+        let o = if k % 5 == 0 { vec![] } else { random_entries(rng, &opts, false) };
+        let q = if k % 3 == 0 { vec![] } else { random_entries(rng, &qas, false) };
+        let mut mv: HashMap<Vulnerability, Vec<(String, BTreeSet<i32>)>> = HashMap::new();
+        for (p, fs) in &v {
+            mv.insert(real::vulnerabilities().into_iter().find(|x| x.0 == p).unwrap().1, fs.clone());
+        }
+        let mut mo: HashMap<Optimization, Vec<(String, BTreeSet<i32>)>> = HashMap::new();
+        for (p, fs) in &o {
+            mo.insert(real::optimizations().into_iter().find(|x| x.0 == p).unwrap().1, fs.clone());
+        }
+        let mut mq: HashMap<QualityAssurance, Vec<(String, BTreeSet<i32>)>> = HashMap::new();
+        for (p, fs) in &q {
+            mq.insert(real::qas().into_iter().find(|x| x.0 == p).unwrap().1, fs.clone());
+        }
+        let _ = std::fs::write("solstat_report.md", "stale report of a previous run\n");
+        let r = catch_unwind(AssertUnwindSafe(move || solstat::report::generation::generate_report(mv, mo, mq)));
+        let imp = match r {
+            Ok(()) => std::fs::read("solstat_report.md").map(|b| hex(&b)).unwrap_or_else(|_| "MISSING".into()),
+            Err(_) => "PANIC".into(),
+        };
+        ctx.line(&["FULLREPORT", &enc(&v), &enc(&o), &enc(&q), &imp]);
+    }
+    std::env::set_current_dir(old).unwrap();
+    let _ = std::fs::remove_dir_all(&scratch);
+}
